@@ -117,6 +117,7 @@ Step(st, lb) ==
   CASE lb.op = "ctorDefault" -> R(Upd(st, c, Fresh(c)), NoRet)
     [] lb.op = "ctorCount"    -> Ctor(st, Growing(Upd(st, c, Fresh(c)), c, Rep(lb.n, DefVal), NoRet))
     [] lb.op = "ctorCountVal" -> Ctor(st, Growing(Upd(st, c, Fresh(c)), c, Rep(lb.n, lb.v), NoRet))
+    [] lb.op = "ctorCountBig" -> Ctor(st, Growing(Upd(st, c, Fresh(c)), c, Rep(BigCap, DefVal), NoRet))
     [] lb.op = "ctorRange"    ->
          IF lb.it = "input" THEN Ctor(st, GrowingEach(Upd(st, c, Fresh(c)), c, Fresh(c), lb.vs, NoRet, Ident))
          ELSE Ctor(st, Growing(Upd(st, c, Fresh(c)), c, lb.vs, NoRet))
@@ -261,10 +262,11 @@ MutOps1 == {"emplaceF", "emplaceBackF", "assignIlist", "assignN", "assignRange",
 SetOps == {"setIndex", "setData", "setIter", "setRIter", "setAt", "setFront", "setBack"}
 ObsOps1 == {"at", "index", "front", "back", "iterate", "relocate", "maxSize"}
 CtorOps1 == {"ctorDefault", "ctorCount", "ctorCountVal", "ctorRange", "ctorIlist"}
+CtorOpsBig == CtorOps1 \cup {"ctorCountBig"}
 BinSame == {"assignCopy", "assignMove", "swap", "freeSwap", "eq", "ne", "lt", "le", "gt", "ge"}
 AliasOps == {"emplaceF", "emplaceBackF", "pushBack", "insert1", "insertN", "emplace", "emplaceBack", "resizeVal", "assignN", "appendNVal"}
 AllOps == MutOps1 \cup ObsOps1 \cup CtorOps1 \cup BinSame \cup {"ctorCopy", "ctorMove", "ctorFromVector", "destroy", "swap2"}
-AllOpsBig == AllOps \cup {"reserveBig"} \cup HugeOps
+AllOpsBig == AllOps \cup {"reserveBig", "ctorCountBig"} \cup HugeOps
 
 \* Vals: value domain;  MaxLen: bound on the size;  MaxCnt: bound on counts;  Its: iterator kinds;
 \* RLens: lengths of range arguments;  Alias: offer value arguments that refer to own elements (C10);
@@ -300,6 +302,8 @@ OpLabels(st, c, o, Vals, MaxLen, MaxCnt, Its, RLens, Alias, Near) ==
     CASE o = "ctorDefault"  -> {Lbl(o, c, 0, 0, 0, 0, 0, "", <<>>)}
       [] o = "ctorCount"    -> {Lbl(o, c, 0, 0, n, 0, 0, "", <<>>) : n \in CtorCnts}
       [] o = "ctorCountVal" -> {Lbl(o, c, 0, 0, n, v, 0, "", <<>>) : n \in CtorCnts, v \in Vals}
+      \* more elements than an 8-bit size_type can count (swap2 with a vector whose SIZE does not fit the other's size_type)
+      [] o = "ctorCountBig" -> IF Flav[c] # "fixed" /\ MaxSz[c] >= BigCap THEN {Lbl(o, c, 0, 0, BigCap, 0, 0, "", <<>>)} ELSE {}
       [] o = "ctorRange"    -> {Lbl(o, c, 0, 0, 0, 0, 0, it, vs) : it \in Its, vs \in {r \in Ranges : Fits(Len(r))}}
       [] o = "ctorIlist"    -> {Lbl(o, c, 0, 0, 0, 0, 0, "", vs) : vs \in {r \in Ranges : Fits(Len(r))}}
       [] o \in {"ctorCopy", "ctorMove"} -> {Lbl(o, c, d, 0, 0, 0, 0, "", <<>>) : d \in Same \ {c}}
@@ -324,7 +328,9 @@ OpLabels(st, c, o, Vals, MaxLen, MaxCnt, Its, RLens, Alias, Near) ==
       [] o \in {"emplaceBack", "pushBack"} ->
            {Lbl(o, c, 0, 0, 0, a[1], a[2], "", <<>>) : a \in {b \in Srcs : Fits(sz + 1)}}
       [] o = "pushBackRv"   -> {Lbl(o, c, 0, 0, 0, v, 0, "", <<>>) : v \in {w \in Vals : Fits(sz + 1)}}
-      [] o \in {"popBack", "popBackVal", "front", "back"} -> IF sz > 0 THEN {Lbl(o, c, 0, 0, 0, 0, 0, "", <<>>)} ELSE {}
+      \* (a vector far beyond MaxLen only shrinks through clear, destroy, moves and swaps: no chain of 300 pop_backs)
+      [] o \in {"popBack", "popBackVal"} -> IF sz > 0 /\ (sz <= MaxLen + MaxCnt + 1 \/ Near > 0) THEN {Lbl(o, c, 0, 0, 0, 0, 0, "", <<>>)} ELSE {}
+      [] o \in {"front", "back"} -> IF sz > 0 THEN {Lbl(o, c, 0, 0, 0, 0, 0, "", <<>>)} ELSE {}
       [] o = "erase1"       -> {Lbl(o, c, 0, p, 0, 0, 0, "", <<>>) : p \in PosE}
       [] o = "eraseRange"   -> {Lbl(o, c, 0, pq[1], pq[2], 0, 0, "", <<>>) : pq \in {w \in Pos \X Pos : w[1] <= w[2]}}
       [] o = "resize"       -> {Lbl(o, c, 0, 0, n, 0, 0, "", <<>>) : n \in Sizes}
